@@ -218,9 +218,10 @@ pub fn c08_update_adds_burns() {
 //# kind: bounded(two inputs; the first spends an outpoint holding 1 or 2 stored balances, the second an outpoint with none; ids and amounts symbolic within the supply invariant)
 //# fns: index::updater::rune_updater::RuneUpdater::unallocated, index::Index::decode_rune_balance
 //# assume: redb::Table and HashMap behave as finite maps (shims); ordinals::varint::decode satisfies the contract proved by the C26 harnesses
+//# cbmc: --unwindset memcmp.0:40
 //# timeout: 1800
 #[cfg_attr(kani, kani::proof)]
-#[cfg_attr(kani, kani::unwind(40))]
+#[cfg_attr(kani, kani::unwind(9))]
 #[cfg_attr(kani, kani::stub(ordinals::varint::decode, vc::decode))]
 #[cfg_attr(kani, kani::stub(std::backtrace::Backtrace::capture, vc::backtrace_disabled))]
 pub fn c08_unallocated_moves_input_balances() {
@@ -267,4 +268,32 @@ pub fn c08_unallocated_moves_input_balances() {
   }
   std::mem::forget(got);
   std::mem::forget(w);
+}
+
+//# props: C99
+//# kind: probe
+#[cfg_attr(kani, kani::proof)]
+#[cfg_attr(kani, kani::unwind(5))]
+pub fn probe_mint_small() {
+  let mut w = World::new();
+  let k0 = RuneId { block: kani::any(), tx: kani::any() };
+  let mut e0 = RuneEntry::default();
+  e0.mints = kani::any();
+  e0.block = kani::any();
+  e0.terms = Some(any_terms());
+  w.id_to_entry.put(k0.store(), e0.store());
+  let height: u32 = kani::any();
+  let mut u = w.updater(height, Rune(0), 0, 0, false);
+  let got = forget(u.mint(k0));
+  std::mem::forget(u);
+  assert!(got.is_some(), "probe");
+  let verdict = e0.mintable(u64::from(height));
+  match got.unwrap() {
+    Some(lot) => {
+      assert!(verdict == Ok(lot.n()), "probe.amount");
+      let after = RuneEntry::load(*w.id_to_entry.peek(&k0.store()).unwrap());
+      assert!(after.mints == e0.mints + 1, "probe.mints");
+    }
+    None => assert!(verdict.is_err(), "probe.none"),
+  }
 }
